@@ -300,13 +300,13 @@ Proof.
     + unfold lok, run in *; cbn. rewrite upd_same. split; auto.
       destruct Hr as [Hr|Hr]; auto. right. rewrite upd_other; auto. congruence.
   - (* PSched *)
-    destruct Hloc as [Hf2 Hk]. rewrite Hts.
-    destruct (Fq_push s (f :: dq s (sto s 0)) Hfrom) as [EF ES].
+    destruct Hloc as [Hf2 Hk]. rewrite Hts, Hto'.
+    destruct (Fq_push s (f :: dq s (3 - sfrom s 0)) Hfrom) as [EF ES].
     destruct k; try contradiction.
     + (* KSpawn *)
       mkfin.
       * exact Hto'.
-      * intros g. rewrite Hto' at 1 2. rewrite EF, ES. rewrite Hto'. fold (Sq s).
+      * intros g. rewrite EF, ES. change (dq s (3 - sfrom s 0)) with (Sq s).
         cbn [fstt set_dq]. pose proof (Hfib f) as []. fibs Hfib g.
       * exact Hprog.
       * exact Hk.
@@ -314,14 +314,14 @@ Proof.
       destruct Hk as [Hc Hnf].
       mkfin.
       * exact Hto'.
-      * intros g. rewrite Hto' at 1 2. rewrite EF, ES. rewrite Hto'. fold (Sq s).
+      * intros g. rewrite EF, ES. change (dq s (3 - sfrom s 0)) with (Sq s).
         cbn [fstt set_dq]. rewrite Hc in *. pose proof (Hfib f) as []. pose proof (Hfib nf) as []. fibs Hfib g.
       * exact Hprog.
       * right. exact Hnf.
     + (* KWake *)
       mkfin.
       * exact Hto'.
-      * intros g. rewrite Hto' at 1 2. rewrite EF, ES. rewrite Hto'. fold (Sq s).
+      * intros g. rewrite EF, ES. change (dq s (3 - sfrom s 0)) with (Sq s).
         cbn [fstt set_dq]. pose proof (Hfib f) as []. fibs Hfib g.
       * exact Hprog.
       * exact Hk.
